@@ -16,7 +16,7 @@ for patch in "$here"/selftest/mutants/*.patch; do
   prop=$(python3 -c "import json;print(json.load(open('$meta'))['property'])")
   git -C "$tmp/wt" checkout -q -- . ; git -C "$tmp/wt" clean -fdq
   if ! git -C "$tmp/wt" apply "$patch" 2>/dev/null; then echo "SELFTEST $name: patch does not apply (stale)"; fail=1; continue; fi
-  out=$(GOVC_REPO="$tmp/wt" GOVC_TMP="$tmp/work" "$here/bin/govc" check -prop "$prop" -no-evidence -verif "$here" 2>&1)
+  out=$(GOVC_REPO="$tmp/wt" GOVC_TMP="$tmp/work" "$here/bin/govc" check -prop "$prop" -no-evidence -no-replay -verif "$here" 2>&1)
   n=$((n+1))
   ok=1
   for obl in $(python3 -c "import json;print(' '.join(json.load(open('$meta'))['expect_obligations']))"); do
